@@ -156,6 +156,20 @@ CHECKS["C17"] = dict(
     note="Assumed: typing get_type_hints/get_origin/get_args contracts, rustworkx mutator/reader split and copy(), copy.copy, dataclasses.fields; "
          "rendering cannot run natively here (installed rustworkx_utils is incompatible), its frame is decided on the real body with RWXNode abstracted.",
 )
+CHECKS["C03"] = dict(
+    category="other",
+    technique="contract-based deductive verification: rely/guarantee contract per generator method (the C01 step lemmas re-discharged with all scratch fields of all expression nodes havoc'd after every own yield; real ast, z3), exhaustive interference schedules on the shared domain iterator, evaluation-start contract; bounded schedule driver",
+    text="(A) AND, ElseIf, Union, Not, Comparator, Variable, Attribute and the query descriptor are executed from their real bodies with abstract "
+         "children; after every yield that reaches the consumer any other evaluation may have written any value into _is_false_, _eval_parent_, "
+         "left_evaluated, right_evaluated of any node: Ext/Sound/Frame per yield and Complete/Unique across paths are still discharged, so "
+         "interleaved evaluations produce what isolated ones produce (induction over schedule and tree). (B) HashedIterable.__iter__ (shared lazily "
+         "cached domain): sources of length <= 4 with duplicates, every schedule of foreign pulls while suspended: each iterator yields the distinct "
+         "values once, in order. (C) evaluate() announces the evaluation to every node before pulling; selectors forget earlier conclusions. "
+         "Level 'other': (B) is length-bounded, whole-query schedules (nested loops, alternating / abandoned iterators, rule trees) are measured by the "
+         "bounded driver, and one finding (two live evaluations of one RULE query) is listed.",
+    note="Assumed: single thread; children satisfy the same contract; a node whose id is already bound reads the flag its enclosing evaluation left "
+         "(entry protocol, not havoc'd); user code pure and repeatable.",
+)
 NOT_APPLICABLE = {
     "C05": "decided by SQLAlchemy/SQLite semantics acting on generated code; no krrood function body carries it, so no contract within reach can express it (DESIGN.md §4)",
 }
